@@ -516,7 +516,11 @@ func (root *Root) replaceArgVars(vars map[string]interface{}, v interface{}, at 
 			}
 		}
 	case map[string]interface{}:
-		if it, _ := BaseType(at).(*Input); it != nil {
+		it, _ := at.(*Input)
+		if nn, _ := at.(*NonNull); nn != nil {
+			it, _ = nn.Base.(*Input)
+		}
+		if it != nil {
 			// Work on a copy, the literal belongs to the parsed executable
 			// which can be resolved again with other variables.
 			cp := make(map[string]interface{}, len(tv))
@@ -531,6 +535,11 @@ func (root *Root) replaceArgVars(vars map[string]interface{}, v interface{}, at 
 			if val, err = it.CoerceIn(cp); err != nil {
 				ea = append(ea, resWarnp(nil, "%s", err))
 			}
+		} else if ic, _ := at.(InCoercer); ic != nil {
+			// An object literal where the declared type is not an input object.
+			if _, err = ic.CoerceIn(val); err != nil {
+				ea = append(ea, resWarnp(nil, "%s", err))
+			}
 		}
 	case []interface{}:
 		var mt Type
@@ -540,6 +549,12 @@ func (root *Root) replaceArgVars(vars map[string]interface{}, v interface{}, at 
 		}
 		if lt != nil {
 			mt = lt.Base
+		} else if ic, _ := at.(InCoercer); ic != nil {
+			// A list literal where the declared type is not a list.
+			if _, err = ic.CoerceIn(val); err != nil {
+				ea = append(ea, resWarnp(nil, "%s", err))
+				break
+			}
 		}
 		cp := make([]interface{}, len(tv))
 		for i, v := range tv {
@@ -548,10 +563,10 @@ func (root *Root) replaceArgVars(vars map[string]interface{}, v interface{}, at 
 		}
 		val = cp
 	case Symbol:
-		bt := BaseType(at)
-		if et, _ := bt.(*Enum); et != nil {
-			if _, has := et.values.dict[string(tv)]; !has {
-				ea = append(ea, resWarnp(nil, "%s is not a valid enum value in %s", tv, et.N))
+		// Only an enum (or a custom scalar that takes one) accepts a symbol.
+		if ic, _ := at.(InCoercer); ic != nil {
+			if _, err = ic.CoerceIn(val); err != nil {
+				ea = append(ea, resWarnp(nil, "%s", err))
 			}
 		}
 	default:
